@@ -43,7 +43,92 @@ func facts(f *hc.Facts) {
 			return true
 		})
 	}
-	f.Bool("waitsConnChanged", waitsChanged && snapshot && retryOnly, "invokeConn: conn and connChanged read under connMux; only retryable errors loop; case <-connChanged continues the loop")
+	// structured: the order of the operations in the body of invokeConn's loop, interpreted by the model
+	// (codes: 1 connMux.Lock, 2 conn := c.conn, 3 connChanged := c.connChanged, 4 connMux.Unlock,
+	//  5 conn.Invoke, 6 return unless retryable, 7 select on ctx/clientDone/connChanged, 0 anything else)
+	var ops []string
+	if fd := f.FuncDecl("telegram", "Client.invokeConn"); fd != nil && fd.Body != nil {
+		ast.Inspect(fd.Body, func(n ast.Node) bool {
+			fs, ok := n.(*ast.ForStmt)
+			if !ok {
+				return true
+			}
+			for _, st := range fs.Body.List {
+				src := f.Src(st)
+				switch {
+				case src == "c.connMux.Lock()":
+					ops = append(ops, "1")
+				case src == "conn := c.conn":
+					ops = append(ops, "2")
+				case src == "connChanged := c.connChanged":
+					ops = append(ops, "3")
+				case src == "c.connMux.Unlock()":
+					ops = append(ops, "4")
+				case strings.HasPrefix(src, "err := conn.Invoke("):
+					ops = append(ops, "5")
+				case strings.HasPrefix(src, "if err == nil || !errRetryableOnNewConn(err)"):
+					ops = append(ops, "6")
+				case strings.HasPrefix(src, "select {") && strings.Contains(src, "<-connChanged"):
+					ops = append(ops, "7")
+				case strings.HasPrefix(src, "verifC29Point("):
+					// observation point, not an operation
+				default:
+					ops = append(ops, "0")
+				}
+			}
+			return false
+		})
+	}
+	f.Raw("def invokeLoopOps : List Nat := [" + strings.Join(ops, ", ") + "] -- invokeConn loop body: 1 Lock 2 conn:=c.conn 3 connChanged:=c.connChanged 4 Unlock 5 conn.Invoke 6 return-unless-retryable 7 select(connChanged) 0 other")
+	// manager.Conn.Run: the deferred statements in order (1 = defer c.dead.Signal(), 2 = other defer, 3 = return c.proto.Run(...))
+	var runOps []string
+	if fd := f.FuncDecl("telegram/internal/manager", "Conn.Run"); fd != nil && fd.Body != nil {
+		for _, st := range fd.Body.List {
+			src := f.Src(st)
+			switch {
+			case src == "defer c.dead.Signal()":
+				runOps = append(runOps, "1")
+			case strings.HasPrefix(src, "defer "):
+				runOps = append(runOps, "2")
+			case strings.HasPrefix(src, "return c.proto.Run("):
+				runOps = append(runOps, "3")
+			default:
+				runOps = append(runOps, "0")
+			}
+		}
+	}
+	f.Raw("def connRunOps : List Nat := [" + strings.Join(runOps, ", ") + "] -- manager.Conn.Run body: 1 defer c.dead.Signal() 2 other defer 3 return c.proto.Run(…) 0 other")
+	// manager.Conn.waitSession: the cases of its blocking select (1 gotConfig, 2 dead -> ErrConnDead, 3 ctx, 0 other)
+	var wsOps []string
+	if fd := f.FuncDecl("telegram/internal/manager", "Conn.waitSession"); fd != nil && fd.Body != nil {
+		var last *ast.SelectStmt
+		ast.Inspect(fd.Body, func(n ast.Node) bool {
+			if sel, ok := n.(*ast.SelectStmt); ok {
+				last = sel
+			}
+			return true
+		})
+		if last != nil {
+			for _, cc := range last.Body.List {
+				c := cc.(*ast.CommClause)
+				switch {
+				case c.Comm == nil:
+					wsOps = append(wsOps, "0")
+				case f.Src(c.Comm) == "<-c.gotConfig.Ready()":
+					wsOps = append(wsOps, "1")
+				case f.Src(c.Comm) == "<-c.dead.Ready()" && strings.Contains(clauseBody(f, c), "return pool.ErrConnDead"):
+					wsOps = append(wsOps, "2")
+				case f.Src(c.Comm) == "<-ctx.Done()":
+					wsOps = append(wsOps, "3")
+				default:
+					wsOps = append(wsOps, "0")
+				}
+			}
+		}
+	}
+	f.Raw("def waitSessionCases : List Nat := [" + strings.Join(wsOps, ", ") + "] -- manager.Conn.waitSession select: 1 gotConfig 2 dead→ErrConnDead 3 ctx 0 other")
+	_ = snapshot
+	f.Bool("waitsConnChanged", waitsChanged && retryOnly, "invokeConn: only retryable errors loop; case <-connChanged continues the loop")
 	f.Bool("waitsClientDone", waitsDone, "invokeConn: case <-clientDone (c.ctx.Done()) returns \"client closed\"")
 	rep := false
 	if fd := f.FuncDecl("telegram", "Client.replaceConn"); fd != nil && fd.Body != nil {
